@@ -283,7 +283,16 @@ def fam_fp16(M):
         m = mg.build(opn, bias=has_bias); cfg = qt.OpQuantizationConfig(weight_tensor_config=qt.TensorQuantizationConfig(16, dtype=qt.TensorDataType.FLOAT), compute_precision=qt.ComputePrecision.FLOAT, explicit_dequantize=expl)
         tag = f'{opn}.explicit_dequantize-{expl}.{"bias" if has_bias else "no-bias"}'; inputs = dict(family='fp16', op=opn, explicit_dequantize=expl, bias=has_bias)
         oi, gi = mg.infos(m, qt, cfg); res = None
-        with cc.guarded(goals, tag, Fm, inputs): res = reg[opn](oi, gi, {})
+        try:
+            with cc.guarded(goals, tag, Fm, inputs): res = reg[opn](oi, gi, {})
+        except symnp.Undecided as ex:
+            # the weight content reaches numpy through something other than one .astype(float16): parametricity is lost -> the clause is decided by a native
+            # search over weight values at the float16 boundaries (refuted with the failing values, otherwise undecided)
+            bad = native_fp16_search(M, opn, has_bias, cfg)
+            if not bad: raise                      # no failing weight found: the front end cannot follow the code (reported as such by the caller, never as 'held')
+            goals.append(G(f'{tag}.stored-weight-is-content.astype(float16)', Fm, ok=False, backend='cpython-exec', inputs=dict(inputs, weights=bad.get('weights')), observed=bad,
+                           clause="stored float16 constant == round-to-nearest-even float16 of the original weight (overflow to inf, subnormals), for every weight content"))
+            continue
         if res is None: continue
         rn = {r.tensor_name: r for r in res}; wname = m.names[m.weight]
         e = rn[wname].consumers[0]; p = e.parameters; X = made.get(id(m.tensors[m.weight]))
@@ -296,6 +305,21 @@ def fam_fp16(M):
              and set(rn) == {m.names[i] for i in ([m.op.inputs[0]] if opn != 'CONV_2D_TRANSPOSE' else [m.op.inputs[2]]) + [m.weight] + m.outs + ([m.bias] if has_bias else [])}
         goals.append(G(f'{tag}.every-other-tensor-stays-float', Fm, ok=bool(ok), backend='cpython-exec', inputs=inputs, clause='input / output / bias entries: NO_QUANTIZE, no parameters'))
     return goals
+
+def native_fp16_search(M, opn, has_bias, cfg):
+    """the REAL registered float-casting materialize function on a minimal op whose weight holds float16 boundary values; stored halves compared bit for bit with f16_ref_bits"""
+    qt = M.qtyping; reg = cc.registry(M)['float_casting']
+    m = mg.build(opn, bias=has_bias); T = m.tensors[m.weight]; n = int(np.prod(T.shape))
+    specials = np.array([65504.0, 65519.0, 65520.0, 70000.0, -65520.0, -1e6, 2 ** -24, 2 ** -25, 1.5 * 2 ** -25, 6.1e-5, 1.0 + 2 ** -11, 1.0 + 3 * 2 ** -11, 0.0, -0.0, 0.1, -0.3], np.float32)
+    data = np.resize(specials, n).astype(np.float32).reshape(T.shape); m.buffers[T.buffer].data = np.frombuffer(data.tobytes(), dtype=np.uint8)
+    oi, gi = mg.infos(m, qt, cfg)
+    try:
+        with np.errstate(all='ignore'): res = reg[opn](oi, gi, {})
+        p = {r.tensor_name: r for r in res}[m.names[m.weight]].consumers[0].parameters; got = np.asarray(p.quantized_data)
+        if got.dtype != np.float16: return dict(weights=[float(x) for x in data.reshape(-1)[:16]], observed=f'stored dtype {got.dtype}')
+        bits = got.reshape(-1).view(np.uint16); bad = [(float(a), int(b), f16_ref_bits(a)) for a, b in zip(data.reshape(-1), bits) if int(b) != f16_ref_bits(a)]
+        return dict(weights=[x[0] for x in bad[:6]], observed=[f'{x[0]!r}: stored 0x{x[1]:04x}, round-to-nearest-even float16 is 0x{x[2]:04x}' for x in bad[:6]]) if bad else None
+    except Exception as e: return dict(weights=[float(x) for x in data.reshape(-1)[:16]], observed=f'raised {type(e).__name__}: {e}')
 
 # ------------------------------------------------------------------------------------------------ every materialize path: constants get THEIR data, activations get none
 E2E = []          # (cases, failures) of the decode-within-a-step check done on the side (bounded stand-in)
@@ -488,9 +512,9 @@ def bounded(rep, M):
     rep.add_bounded('numpy float32 -> float16 cast (round to nearest even, overflow to inf, subnormals)', 'ties, subnormal and overflow boundaries + 3500 regular values, compared bit for bit with CPython struct "e"', len(vals), fails)
     # end to end on the real code: statistics -> parameters -> quantize_tensor -> independent decode -> dequantize in binary64
     qt = M.qtyping; cases = f2 = 0; worst = 0.0
-    for bits, sym, gran, shape in itertools.product((4, 8), (True, False), ('TENSORWISE', 'CHANNELWISE'), ((3, 5), (4, 3), (2, 1), (3, 1))):
-        for seed in range(3):
-            m = mg.build('FULLY_CONNECTED', bias=False, weight_shape=shape); data = (m.data[m.weight] * np.float32(0.31 + seed) + np.float32(seed - 1)).astype(np.float32)
+    for (opn, adj), bits, sym, gran, shape in itertools.product((('FULLY_CONNECTED', False), ('BATCH_MATMUL', False), ('BATCH_MATMUL', True)), (4, 8), (True, False), ('TENSORWISE', 'CHANNELWISE'), ((3, 5), (4, 3), (2, 1), (3, 1))):
+        for seed in range(3 if opn == 'FULLY_CONNECTED' else 1):
+            m = mg.build(opn, bias=False, weight_shape=shape, adj_y=adj); data = (m.data[m.weight] * np.float32(0.31 + seed) + np.float32(seed - 1)).astype(np.float32)
             m.buffers[m.tensors[m.weight].buffer].data = np.frombuffer(data.tobytes(), dtype=np.uint8)
             wcfg = qt.TensorQuantizationConfig(bits, sym, qt.QuantGranularity(gran)); oi, gi = mg.infos(m, qt, qt.OpQuantizationConfig(weight_tensor_config=wcfg, compute_precision=qt.ComputePrecision.INTEGER))
             cases += 1
@@ -502,15 +526,22 @@ def bounded(rep, M):
             T = m.tensors[m.weight]; raw = bytes(np.asarray(m.buffers[T.buffer].data).tobytes()); n = data.size
             codes = np.array(ref_unpack(raw, n) if bits == 4 else list(np.frombuffer(raw, dtype=np.int8)), np.int64).reshape(shape)
             sc = np.array(T.quantization.scale, np.float64); zp = np.array(T.quantization.zeroPoint, np.int64)
-            if sc.size > 1: sc = sc.reshape(-1, 1); zp = zp.reshape(-1, 1)
+            if sc.size > 1:
+                # per-channel parameters are laid along the tensor's OWN quantizedDimension (decoding with the tensor's own parameters)
+                qd = int(T.quantization.quantizedDimension); bshape = [1] * len(shape)
+                if not (0 <= qd < len(shape)) or sc.size != shape[qd]:
+                    f2 += 1
+                    if not DECODE_FAIL: DECODE_FAIL.append(dict(op=opn, adj_y=adj, bits=bits, symmetric=sym, granularity=str(gran), shape=list(shape), content_seed=seed, undecodable=f'{sc.size} scales stored with quantized_dimension={qd} of extent {shape[qd] if 0 <= qd < len(shape) else None}'))
+                    continue
+                bshape[qd] = -1; sc = sc.reshape(bshape); zp = zp.reshape(bshape)
             err = np.abs((codes - zp) * sc - data.astype(np.float64)) / sc; worst = max(worst, float(err.max()))
             if len(raw) != ((n + 1) // 2 if bits == 4 else n) or err.max() > (0.5 if sym else 1.0) * (1 + 1e-3) + 1e-3:
                 f2 += 1
-                if not DECODE_FAIL: DECODE_FAIL.append(dict(bits=bits, symmetric=sym, granularity=str(gran), shape=list(shape), content_seed=seed, stored_bytes=len(raw), worst_error_in_steps=float(err.max()), allowed_steps=0.5 if sym else 1.0))
+                if not DECODE_FAIL: DECODE_FAIL.append(dict(op=opn, adj_y=adj, bits=bits, symmetric=sym, granularity=str(gran), shape=list(shape), content_seed=seed, stored_bytes=len(raw), worst_error_in_steps=float(err.max()), allowed_steps=0.5 if sym else 1.0))
     if E2E:
         rep.add_bounded('registered materialize function -> quantize_tensor on the minimal op: stored byte length vs written type and shape', 'every constant with QUANTIZE_TENSOR / ADD_DEQUANTIZE of the materialize table (the structural cause is the obligation family "materialize")', E2E[0][0], E2E[0][1],
                         note='failures here are the natively observed consequence of the refuted materialize obligations (INT8 tensor keeping its float32 bytes)')
-    rep.add_bounded('init_tensor_min_max -> _get_tensor_quant_params -> quantize_tensor -> independent decode (binary32 arithmetic of the real code)', f'4/8 bit x sym/asym x per-tensor/per-channel x 4 shapes (odd and even sizes) x 3 contents; worst error {worst:.4f} steps', cases, f2)
+    rep.add_bounded('init_tensor_min_max -> _get_tensor_quant_params -> quantize_tensor -> independent decode (binary32 arithmetic of the real code)', f'FULLY_CONNECTED and BATCH_MATMUL (adj_y False/True) x 4/8 bit x sym/asym x per-tensor/per-channel x 4 shapes (odd and even sizes) x 3/1 contents, decoded along the stored quantizedDimension; worst error {worst:.4f} steps', cases, f2)
     return fails + f2
 
 DECODE_FAIL = []
